@@ -53,7 +53,7 @@ def check_C17(tier, seed):
         shutil.copy(os.path.join(build.REPO, "Cargo.lock"), os.path.join(scratch, "Cargo.lock"))
         with open(os.path.join(scratch, "codegen", "src", "grammar", "generated.rs"), "w", encoding="utf-8") as f:
             f.write(gen2)
-        shutil.copytree(os.path.join(build.RUST, "cgdrv"), os.path.join(scratch, "cgdrv"), ignore=shutil.ignore_patterns("target", "Cargo.lock"))
+        shutil.copytree(os.path.join(build.RUST_SRC, "cgdrv"), os.path.join(scratch, "cgdrv"), ignore=shutil.ignore_patterns("target", "Cargo.lock"))
         ct = os.path.join(scratch, "cgdrv", "Cargo.toml")
         s = open(ct).read().replace('"/repo/codegen"', '"%s/codegen"' % scratch).replace('"/repo/runtime"', '"%s/runtime"' % scratch)
         open(ct, "w").write(s)
